@@ -19,28 +19,41 @@ _T = "SE.Proofs.C08."
 THEOREMS = [_T + n for n in [
     "C08_clips", "C08_clips_pairs", "C08_cover", "C08_index_faithful", "C08_index_faithful_annotations",
     "C08_pairs_overlap_report_affinity_score", "C08_unpaired_zero", "C08_geometryless_unpaired",
-    "C08_matcher_contract_checked", "C08_contract_from_C07", "C08_holds_cover_sound", "C08_holds_cover_model", "C08_clip_score_is_mean", "C08_means", "C08_scores_in_range", "C08_empty"]]
+    "C08_matcher_contract_checked", "C08_contract_from_C07", "C08_holds_cover_sound", "C08_holds_cover_model", "C08_clip_score_is_mean", "C08_means", "C08_scores_in_range", "C08_empty",
+    # geometry layer (review): the matcher inside the model, overlap decided by end-point comparisons
+    "C08_overlap_iff_affinity_pos", "C08_overlap_symm_total", "C08_geo_matcher_contract", "C08_geo_pairs_overlap",
+    "C08_judge_sound", "C08_judge_model", "C08_geo_detection"]]
 LEVEL_TEXT = ("Lean theorems over the model of evaluate_clip / sound_event_detection hold for all inputs: evaluated clips = "
-              "predictions whose clip id is annotated, in order; under the matcher's cover contract every annotated and "
-              "predicted sound event (with or without geometry) is in exactly one match; the filtered->original index map is "
-              "the order-preserving injection; a pair has positive affinity, reports the matcher's affinity and the "
-              "probability of the annotation's class; unpaired events get affinity 0 and score 0; clip and overall scores are "
-              "means. The model is run differentially against sound_event_detection, evaluate_clip and "
-              "iterate_over_valid_clips; the contract is evaluated on every answer of the real matcher.")
-LEVEL_NOTE = ("Trusted: Lean kernel; match_geometries (C07) and compute_affinity (C06) are parameters whose cover contract "
-              "(MatcherCover) is a hypothesis of the theorems and is checked at run time on what the real matcher returned; "
-              "'geometries overlap' is read as 'the matcher reports affinity > 0'. Unmodelled: binary64 rounding of the means "
-              "(dyadic scores: clip score is one correctly rounded division; overall score within 2^-40); scikit-learn behind "
-              "the run-level metrics (C09). Model tied to the code by generator-bounded correspondence (no table or "
-              "straight-line kernel in this property).")
-TECHNIQUE = ("Lean 4 proof over model with the matcher as a parameter under a monitored contract; end-to-end and per-clip "
-             "differential correspondence, exhaustive small scopes; executable property monitor on the real results")
+              "predictions whose clip id is annotated, in order; every annotated and predicted sound event (with or without "
+              "geometry) is in exactly one match; the filtered->original index map is the order-preserving injection; a pair "
+              "reports the geometric affinity and the probability of the annotation's class; unpaired events get affinity 0 "
+              "and score 0; clip and overall scores are means. Two layers: (1) the matcher's answer as a parameter under the "
+              "cover contract; (2) the matcher inside the model (closed-form compute_affinity for time stamps, intervals and "
+              "boxes + _select_matches around the assignment solver's pairs), where the cover contract is a theorem and "
+              "'paired only if the geometries overlap' is proved with overlap defined by end-point comparisons "
+              "(C08_overlap_iff_affinity_pos, C08_geo_pairs_overlap). The same comparison, evaluated in Lean "
+              "(judgePairs, C08_judge_sound) on the matches sound_event_detection really returned, judges every reported "
+              "pair. Ties: the matcher's default buffers (table), symbolic traces of compute_affinity on two boxes, of "
+              "compute_affinity_in_time and of evaluate_sound_event's score/affinity (all inputs), differential runs of "
+              "sound_event_detection, evaluate_clip and iterate_over_valid_clips against both layers.")
+LEVEL_NOTE = ("Trusted: Lean kernel; scipy's assignment (only its pairs enter the model; contract ValidAssignment evaluated "
+              "on every answer; which overlapping pairs are chosen is C07's optimality, not pinned here); GEOS on "
+              "rectangles (contract BoxExact, embodied in the trace stub); for geometry types without closed form "
+              "(points, lines, polygons) the affinity is a monitored measurement with shapely, not a model value. "
+              "Unmodelled: binary64 rounding of the means (dyadic scores: clip score is one correctly rounded division; "
+              "overall score within 2^-40) and of the affinity (compared within 2^-40); scikit-learn behind the run-level "
+              "metrics (C09). evaluate_clip's loop itself is tied by generator-bounded correspondence.")
+TECHNIQUE = ("Lean 4 proof over a two-layer model (matcher as parameter under a proved-sufficient contract; matcher inside "
+             "the model around the solver's pairs); table and symbolic-trace obligations regenerated from the source; "
+             "end-to-end and per-clip differential correspondence, exhaustive small scopes; Lean-side judge of every "
+             "reported pair by closed-form overlap; executable property monitor on the real results")
 RULE = ("sound_event_detection end to end (0-4 evaluated clips, 0-4 annotated and predicted events per clip, geometry "
-        "present/absent, boxes on a grid identical / overlapping / touching / disjoint / far apart, vocabularies of 1-6 tags, "
+        "present/absent, boxes on a grid identical / overlapping / touching / disjoint along one or both axes / far apart, "
+        "time intervals, time stamps, points, lines and polygons on the same grid, vocabularies of 1-6 tags, "
         "dyadic or one-hot non-dyadic scores with sum <= 1), evaluate_clip on exhaustive small clips, clip pairing on all "
         "small id lists; non-trivial = a result with at least one match; distinct = distinct (operation, input)")
-TRUSTED = ["match_geometries / compute_affinity (properties C07 / C06): contract MatcherCover evaluated on every answer",
-           "shapely/GEOS areas behind the affinity (only the reported number is used)",
+TRUSTED = ["scipy.optimize.linear_sum_assignment behind match_geometries: contracts MatcherCover and ValidAssignment evaluated on every answer",
+           "shapely/GEOS: exact on rectangles (trace stub); measured directly for points, lines and polygons (monitored contract)",
            "harness: resolves a tag to the encoder's answer by position in the vocabulary (C19 covers the encoder)"]
 ASSUMPTIONS = ["clip ids pairwise distinct within the prediction list and within the annotation list",
                "binary64 sums of the generated scores are exact (dyadic grids, or one non-dyadic float32 score per event)",
@@ -611,6 +624,39 @@ def _smin(a, b):
     return Sym(f"(min {a.e} {b.e})", lambda env, a=a, b=b: min(a.f(env), b.f(env)))
 
 
+def _sym_extremum(builtin, sym2):
+    """`max` / `min` for a module under trace: one symbolic term when a symbolic number takes part (so that a
+    closed-form rewrite of the code does not explode into paths), the builtin otherwise"""
+    def f(*args, **kw):
+        xs = list(args[0]) if len(args) == 1 and not kw else list(args)
+        if kw or not xs or not any(isinstance(x, Sym) for x in xs):
+            return builtin(*args, **kw)
+        out = xs[0]
+        for x in xs[1:]:
+            out = sym2(out, x)
+        return out
+    return f
+
+
+class _patched:
+    """temporarily set module attributes (restored / removed afterwards)"""
+
+    def __init__(self, mod, **attrs):
+        self.mod, self.attrs, self.saved = mod, attrs, {}
+
+    def __enter__(self):
+        for k, v in self.attrs.items():
+            self.saved[k] = self.mod.__dict__.get(k, _patched)
+            setattr(self.mod, k, v)
+
+    def __exit__(self, *exc):
+        for k, v in self.saved.items():
+            if v is _patched:
+                delattr(self.mod, k)
+            else:
+                setattr(self.mod, k, v)
+
+
 class _RectStub:
     """what GEOS computes for axis-parallel rectangles (contract `BoxExact`), on symbolic coordinates"""
 
@@ -667,17 +713,13 @@ def _symbolic_ties(ctx):
     BV = ["s1", "l1", "e1", "h1", "s2", "l2", "e2", "h2"]
     sy = {n: Sym.var(n) for n in BV}
 
+    smax, smin = _sym_extremum(max, _smax), _sym_extremum(min, _smin)
+
     def run_boxes():
-        saved = {k: getattr(A, k, None) for k in ("geometry_to_shapely", "compute_bounds")}
-        A.geometry_to_shapely = lambda g: _RectStub(g.coordinates)
-        A.compute_bounds = lambda g: tuple(g.coordinates)
-        try:
+        with _patched(A, geometry_to_shapely=lambda g: _RectStub(g.coordinates),
+                      compute_bounds=lambda g: tuple(g.coordinates), max=smax, min=smin):
             return A.compute_affinity(_GeomStub("BoundingBox", [sy[n] for n in BV[:4]]),
                                       _GeomStub("BoundingBox", [sy[n] for n in BV[4:]]))
-        finally:
-            for k, v in saved.items():
-                if v is not None:
-                    setattr(A, k, v)
     ctx.sym_tie("ext_box_affinity", run_boxes, BV, "Rat",
                 "some (SE.Affinity.iouC (SE.Affinity.boxArea s1 l1 e1 h1) (SE.Affinity.boxArea s2 l2 e2 h2) "
                 "(SE.Affinity.boxInter s1 l1 e1 h1 s2 l2 e2 h2))",
@@ -686,13 +728,9 @@ def _symbolic_ties(ctx):
 
     # (b) the time branch
     def run_time():
-        saved = A.compute_bounds
-        A.compute_bounds = lambda g: tuple(g.coordinates)
-        try:
+        with _patched(A, compute_bounds=lambda g: tuple(g.coordinates), max=smax, min=smin):
             return A.compute_affinity_in_time(_GeomStub("TimeInterval", [sy[n] for n in BV[:4]]),
                                               _GeomStub("TimeInterval", [sy[n] for n in BV[4:]]))
-        finally:
-            A.compute_bounds = saved
     ctx.sym_tie("ext_time_affinity", run_time, BV, "Rat", "some (SE.Affinity.timeIoU s1 e1 s2 e2)",
                 tactic="unfold ext_time_affinity SE.Affinity.timeIoU\n  se_close", meta={"op": "detection_geo"})
 
